@@ -123,15 +123,27 @@ impl CommitOracle {
 	/// advanced past what we last pruned to).
 	///
 	/// Called under `write_mutex` AFTER seq allocation, BEFORE WAL.
-	pub(crate) fn publish<'a, I>(&self, keys: I, seq_num: u64, count: u64, oldest_active: u64)
+	///
+	/// Returns, per key (in iteration order), the stamp this call replaced, if
+	/// any. A caller that later has to undo the publish hands the list back to
+	/// `rollback_restoring` so that the replaced stamps come back.
+	pub(crate) fn publish<'a, I>(
+		&self,
+		keys: I,
+		seq_num: u64,
+		count: u64,
+		oldest_active: u64,
+	) -> Vec<Option<u64>>
 	where
 		I: IntoIterator<Item = &'a [u8]>,
 	{
 		debug_assert!(count >= 1, "publish called with count=0");
 		let mut g = self.inner.lock();
 		let stamp = seq_num + count - 1;
+		let mut replaced = Vec::new();
 		for k in keys {
-			g.recent_writes.insert(fp(k), stamp);
+			// A key repeated inside the batch finds its own stamp: not a replaced one.
+			replaced.push(g.recent_writes.insert(fp(k), stamp).filter(|old| *old != stamp));
 		}
 
 		// `saturating_add` so the counter doesn't overflow if the watermark
@@ -164,6 +176,7 @@ impl CommitOracle {
 			g.kept_since = oldest_active;
 			g.recent_writes.retain(|_, v| *v >= oldest_active);
 		}
+		replaced
 	}
 
 	/// Roll back oracle entries reserved by a transaction whose commit
@@ -188,16 +201,39 @@ impl CommitOracle {
 	/// pre-existing apply-failure / seq-gap issue documented at
 	/// `src/commit.rs` (around the "Sequence number gaps" comment block)
 	/// and is orthogonal to this rollback's live-process soundness.
+	#[cfg(test)]
 	pub(crate) fn rollback<'a, I>(&self, keys: I, my_seq: u64)
 	where
 		I: IntoIterator<Item = &'a [u8]>,
 	{
+		self.rollback_restoring(keys, my_seq, &[]);
+	}
+
+	/// `rollback` that also puts back the stamps `publish` had replaced
+	/// (`replaced` is the list `publish` returned for the same keys).
+	///
+	/// Just removing our entry would also forget the committer whose stamp we
+	/// overwrote: a transaction that began before that committer and writes the
+	/// same key would then pass `check` and both would commit (lost update).
+	/// A replaced stamp below `kept_since` has been pruned meanwhile and stays
+	/// pruned (`check` answers Retry for every start below `kept_since`).
+	pub(crate) fn rollback_restoring<'a, I>(&self, keys: I, my_seq: u64, replaced: &[Option<u64>])
+	where
+		I: IntoIterator<Item = &'a [u8]>,
+	{
 		let mut g = self.inner.lock();
-		for k in keys {
+		for (i, k) in keys.into_iter().enumerate() {
 			let fk = fp(k);
 			if let Some(&v) = g.recent_writes.get(&fk) {
 				if v == my_seq {
-					g.recent_writes.remove(&fk);
+					match replaced.get(i).copied().flatten() {
+						Some(previous) if previous >= g.kept_since => {
+							g.recent_writes.insert(fk, previous);
+						}
+						_ => {
+							g.recent_writes.remove(&fk);
+						}
+					}
 				}
 			}
 		}
